@@ -11,7 +11,7 @@ STATEFUL = True
 RULE = ('Hypothesis RuleBasedStateMachine: the initial rule draws a model (2-5 attributes, sizes 1-3, C01-style clique '
         'shapes, potentials N(0,1)*scale with scale in {0,1,5,30,600} and optional -inf (krondot only when the summed magnitude is <=300), total incl. != 1, elimination-order mode); then up to 14 '
         'steps of project(ordered subset, list|tuple, incl. () and full permutations) / calculate_many_marginals / krondot '
-        '/ datavector / cache / uncache / save+load / synthetic_data / scribbling on a returned answer. After every step '
+        '/ datavector / cache / uncache / save+load / relayout (parameter tables re-stored with permuted axes) / synthetic_data / scribbling on a returned answer. After every step '
         'the answer must equal the brute-force marginal in the requested axis order. The executed rule list is the '
         'replayable case. Non-trivial = the history has an out-of-clique query spanning >=2 maximal cliques and a '
         'cache-state change; distinct by sha1 of the history.')
@@ -137,6 +137,15 @@ def apply_op(state, op, out):
         state.mbi.GraphicalModel.save(m, path)
         state.model = state.mbi.GraphicalModel.load(path)
         state.flags.add('save_load')
+    elif k == 'relayout':
+        # store each parameter table with its axes in another order (Factors are addressed by attribute name, so this
+        # changes nothing about the model); what a caller assembling potentials from own tables ends up with
+        rng = np.random.Generator(np.random.PCG64(op['seed']))
+        for cl in list(m.potentials.keys()):
+            f = m.potentials[cl]
+            names = list(f.domain.attrs)
+            m.potentials[cl] = f.transpose([names[i] for i in rng.permutation(len(names))])
+        if any(len(cl) >= 2 for cl in m.potentials.keys()): state.flags.add('relayout')
     elif k == 'synth':
         np.random.seed(op['seed'])
         rows = op['rows']
@@ -243,6 +252,10 @@ def machine(tier, record, timeup):
         @rule()
         def save_load(self):
             self._do({'op': 'save_load'})
+
+        @rule(seed=st.integers(0, 2**31 - 1))
+        def relayout(self, seed):
+            self._do({'op': 'relayout', 'seed': seed})
 
         @rule(seed=st.integers(0, 2**31 - 1), rows=st.sampled_from([None, 1, 7, 50]), method=st.sampled_from(['round', 'sample']))
         def synth(self, seed, rows, method):
